@@ -16,7 +16,7 @@ try:
 except Exception: pass
 m = {
  "version": 1,
- "setup_cmd": "cd /verif/sim && CARGO_NET_OFFLINE=true cargo build --release --offline -p muxsim",
+ "setup_cmd": "/verif/setup.sh",
  "hooks": {
    "guard": "penguin_rs_verif",
    "enable": "RUSTFLAGS='--cfg penguin_rs_verif --cfg tokio_unstable' (syssim, via /verif/sim/.cargo/config.toml) ; RUSTFLAGS='--cfg loom --cfg penguin_rs_verif' (loom models); muxsim needs no hooks",
